@@ -343,13 +343,22 @@ func zzC18Listen() {
 	srv.toolChangeSubscriptions[other] = zzID7()
 	srv.resourceSubscriptions["file:///x"] = map[*ServerSession]jsonrpc.ID{other: zzID7()}
 	want := &NotificationSubscriptions{ToolsListChanged: vBool("tools"), PromptsListChanged: vBool("prompts"), ResourcesListChanged: vBool("resources"), ResourceSubscriptions: uris}
+	// the session may hold another listen already (the one opened at connect for list-changed notifications; this one
+	// being a later Subscribe): what that one registered is not this one's to remove (defect D23, fixed)
+	elder := vBool("sessionHoldsAnotherListen")
+	if elder {
+		id9, _ := jsonrpc.MakeID(float64(9))
+		srv.toolChangeSubscriptions[ss] = id9
+		srv.promptChangeSubscriptions[ss] = id9
+		srv.resourceChangeSubscriptions[ss] = id9
+	}
 	zzAckFails = vBool("ackUndeliverable")
 	acked := false
 	zzAckSeen = func() {
 		acked = true
 		// when the acknowledgement goes out, everything acknowledged is in place
 		_, t := srv.toolChangeSubscriptions[ss]
-		vAssert(t == want.ToolsListChanged, "C18.listen.registered-before-acknowledged")
+		vAssert(t == (want.ToolsListChanged || elder), "C18.listen.registered-before-acknowledged")
 		for _, u := range uris {
 			_, in := srv.resourceSubscriptions[u][ss]
 			vAssert(in, "C18.listen.registered-before-acknowledged")
@@ -365,7 +374,13 @@ func zzC18Listen() {
 	_, t := srv.toolChangeSubscriptions[ss]
 	_, p := srv.promptChangeSubscriptions[ss]
 	_, r := srv.resourceChangeSubscriptions[ss]
-	vAssert(!t && !p && !r, "C18.listen.ended-listen-leaves-no-subscription")
+	if elder {
+		// kinds this listen did not ask for still belong to the other listen
+		vAssert((t || want.ToolsListChanged) && (p || want.PromptsListChanged) && (r || want.ResourcesListChanged), "C18.listen.ended-listen-leaves-the-sessions-other-listen-alone")
+		vReach("elder-listen")
+	} else {
+		vAssert(!t && !p && !r, "C18.listen.ended-listen-leaves-no-subscription")
+	}
 	for _, m := range srv.resourceSubscriptions {
 		_, in := m[ss]
 		vAssert(!in, "C18.listen.ended-listen-leaves-no-subscription")
